@@ -22,6 +22,7 @@ VECS = {
     'neg': lambda rs: -np.abs(rs.randn(6)).astype(np.float32),
     'mat': lambda rs: rs.randn(3, 4).astype(np.float32),
     'outlier': lambda rs: np.concatenate([[-10.0, 6.0], 0.1 * rs.randn(18)]).astype(np.float32),
+    'tiny': lambda rs: (np.array([0., 1., 2., 3., 4.]) * 2.0 ** -30).astype(np.float32),
     'huge': lambda rs: np.array([-3e38, 0., 1., 3e38], np.float32),
 }
 
@@ -38,7 +39,7 @@ def check_quantizers(inp):
   L = int(inp.get('num_levels', 4))
   keys = [jax.random.PRNGKey(1000 * inp.get('seed', 0) + i) for i in range(int(inp.get('draws', 40)))]
   m, M = float(v.min()), float(v.max())
-  tol = 1e-5 * max(1.0, abs(m), abs(M))
+  tol = 1e-5 * max(abs(m), abs(M), M - m)
   outs = []
   for k in keys:
     if kind == 'usq':
@@ -67,6 +68,8 @@ def check_quantizers(inp):
           return f'{kind}: output {y.tolist()} is not on the {levels}-level grid of [{m}, {M}]'
       if step == 0 and not np.array_equal(y, v):
         return f'{kind}: a constant vector does not pass through: {v.tolist()} -> {y.tolist()}'
+      if kind == 'usq' and inp.get('vec') == 'tiny' and L == 5 and not np.allclose(y, v, rtol=1e-5, atol=0):
+        return f'usq: a small-range vector on the 5-level grid does not pass through: {v.tolist()} -> {y.tolist()}'
       if kind == 'usq' and inp.get('vec') == 'grid' and L == 4 and not np.allclose(y, v, atol=1e-5):
         return f'usq: a vector on the grid does not pass through: {v.tolist()} -> {y.tolist()}'
     if kind == 'tern':
@@ -103,8 +106,8 @@ def check_quantizers(inp):
 def sweep_quantizers(tier, seed):
   many = 400 if tier == 'thorough' else 200
   for kind in ('usq', 'bin', 'tern', 'drive'):
-    for vec in ('rand', 'outlier', 'size1', 'const', 'zeros', 'grid', 'dyn', 'neg', 'mat'):
-      for L in ((2, 4, 17) if kind == 'usq' else (4,)):
+    for vec in ('rand', 'outlier', 'tiny', 'size1', 'const', 'zeros', 'grid', 'dyn', 'neg', 'mat'):
+      for L in ((2, 4, 5, 17) if kind == 'usq' else (4,)):
         yield dict(kind=kind, vec=vec, num_levels=L, seed=seed, draws=(many if vec in ('rand', 'mat', 'outlier') and L == 4 else 8))
 
 
